@@ -17,7 +17,9 @@ func init() { checkers["C06"] = checkC06 }
 
 type tuple struct{ uuid, seq, ss, se uint64 }
 
-func (t tuple) String() string { return fmt.Sprintf("{uuid=%d seq=%d snap=[%d,%d]}", t.uuid, t.seq, t.ss, t.se) }
+func (t tuple) String() string {
+	return fmt.Sprintf("{uuid=%d seq=%d snap=[%d,%d]}", t.uuid, t.seq, t.ss, t.se)
+}
 
 func offTuple(o *journal.Off) tuple { return tuple{o.UUID, o.Seq, o.Start, o.End} }
 
